@@ -3,7 +3,7 @@
    Print Assumptions.  Model: coq/C12/Reduce.v, coq/C12/Hash.v over coq/gen/ReduceParams.v. *)
 From Coq Require Import NArith List.
 From MirV Require Import gen.ReduceParams C12.Arr C12.Hash C12.Reduce C12.CodecProofs C12.DecodeProofs
-  C12.RoundTrip C12.EncodeTotal C12.EncodeExact C12.HashProofs.
+  C12.RoundTrip C12.EncodeTotal C12.EncodeExact C12.HashProofs C12.EncodeStale.
 Import ListNotations.
 Local Open Scope N_scope.
 
@@ -155,3 +155,19 @@ Theorem reduce_hash_key_part_fast_path : forall l,
   key_part_fast l = key_part l /\ key_part l = le_value l * p256 (8 - length l).
 Proof. exact (fun l Hb Hl => conj (key_part_fast_eq l Hb Hl) (key_part_value l Hb Hl)). Qed.
 Print Assumptions reduce_hash_key_part_fast_path.
+
+(* Round 3.  The C encoder reuses ONE buffer: a partial last piece of input is written over the
+   previous 256 KiB piece (a single-buffer input over whatever malloc returned), so the cells at
+   positions >= buf_bound hold stale bytes while it is encoded.  [encode_on buf0] is the encoder that
+   starts from an arbitrary buffer [buf0] and carries the buffer from piece to piece; its output is
+   that of [encode] (fresh buffer per piece) for EVERY initial buffer and every input: no comparison,
+   hash or literal of the encoder reads a cell at or behind buf_bound.  With reduce_roundtrip: the
+   output is decodable whatever the buffer held. *)
+Theorem reduce_encode_ignores_stale_buffer : forall buf0 data, encode_on buf0 data = encode data.
+Proof. exact encode_on_eq. Qed.
+Print Assumptions reduce_encode_ignores_stale_buffer.
+
+Theorem reduce_roundtrip_any_buffer : forall buf0 i2p0 dbuf0 data s,
+  encode_on buf0 data = Some s -> decode true i2p0 dbuf0 s = Accept data.
+Proof. exact decode_encode_on. Qed.
+Print Assumptions reduce_roundtrip_any_buffer.
